@@ -2579,10 +2579,20 @@ def h_full(ev, args, kwargs, fr, node):
     return out
 
 
-def h_array(ev, args, kwargs, fr, node, strip=False):
+def h_array(ev, args, kwargs, fr, node, strip=False, default_copy=None):
     x = args[0]
     if isinstance(x, StrV):
         return OpaqueV("strarray", x)
+    cp = kwargs.get("copy")
+    fresh = (isinstance(cp, BoolV) and cp.b) or (cp is None and default_copy is True)
+    out = _h_array(ev, args, kwargs, fr, node, strip)
+    if fresh and out is x and isinstance(out, Num):
+        return out.like(out.expr, unit=out.unit, cls=out.cls, tag=out.tag)      # copy=True: a new array object
+    return out
+
+
+def _h_array(ev, args, kwargs, fr, node, strip=False):
+    x = args[0]
     dt = kwargs.get("dtype", args[1] if len(args) > 1 else NONE)
     subok = kwargs.get("subok")
     if strip and not (isinstance(subok, BoolV) and subok.b) and isinstance(x, Num) and x.kind == "quantity" and x.tag != "unit":
@@ -3366,7 +3376,8 @@ EXT = {
     "numpy.shape": lambda ev, a, k, fr, n: h_np_shape(ev, a, k, fr, n), "numpy.broadcast_shapes": lambda ev, a, k, fr, n: h_broadcast_shapes(ev, a, k, fr, n),
     "numpy.unravel_index": lambda ev, a, k, fr, n: h_unravel_index(ev, a, k, fr, n),
     "numpy.can_cast": lambda ev, a, k, fr, n: h_can_cast(ev, a, k, fr, n),
-    "numpy.array": lambda ev, a, k, fr, n: h_array(ev, a, k, fr, n, strip=True), "numpy.asarray": lambda ev, a, k, fr, n: h_array(ev, a, k, fr, n, strip=True),
+    "numpy.array": lambda ev, a, k, fr, n: h_array(ev, a, k, fr, n, strip=True, default_copy=True),
+    "numpy.asarray": lambda ev, a, k, fr, n: h_array(ev, a, k, fr, n, strip=True),
     "numpy.asanyarray": h_array,
     "dask.array.asanyarray": lambda ev, a, k, fr, n: a[0].like(a[0].expr, backend="dask") if isinstance(a[0], Num) else a[0],
     "dask.array.asarray": lambda ev, a, k, fr, n: a[0].like(a[0].expr, backend="dask") if isinstance(a[0], Num) else a[0],
